@@ -31,7 +31,7 @@ Failing(e) ==
        Cl(P(e, "C01.noFalseNegative"), gp \subseteq qtp) \cup
        Cl(P(e, "C01.infallible: insert/union of this filter cannot fail"), e.res # "full") \cup
        Cl(P(e, "C19.isEmpty"), e.empty_post <=> (gp = {})) \cup
-       Cl("C19.clone", e.twin_ok) \cup
+       Cl("C19.clone", e.twin_ok) \cup LockStepClause(e) \cup
        (IF Exact THEN Cl(P(e, "C01.exactReference"), qtp = gp /\ e.len_post = Cardinality(gp)) ELSE {}) \cup
        (IF e.op.name = "clear" THEN Cl("C19.clearedAnswersLikeFresh", qtp = {} /\ e.len_post = 0 /\ e.empty_post) ELSE {}) \cup
        (IF e.op.name = "union" THEN
